@@ -687,6 +687,10 @@ where
 type Gen = (Vec<Vec<f64>>, String, Option<(f64, usize)>);
 
 fn draw_n(rng: &mut Rng, max: usize) -> usize {
+    // the `large` family: more than a thousand points
+    if scverif::big() > 0 {
+        return rng.us(1025, 2000);
+    }
     let r = rng.f();
     let hi = if r < 0.3 {
         12.min(max)
@@ -1318,6 +1322,17 @@ fn api_paths_fam(c: &mut Case) {
     scverif::apipaths::case(c, "C13")
 }
 
+/// blobs, chains, lattices and uniform clouds of 1025..2000 points (beyond the ordinary bound of 150)
+fn large(c: &mut Case) {
+    let g = c.index % 4;
+    scverif::with_big(1, || match g {
+        0 => blobs(c),
+        1 => chains(c),
+        2 => lattice(c),
+        _ => uniform(c),
+    })
+}
+
 fn main() {
     runner::main(Spec {
         property: "C13",
@@ -1341,6 +1356,7 @@ fn main() {
             Family::new("small", 1000, 10000, small),
             Family::new("shared_border", 1000, 10000, shared_border),
             Family::new("stack_stress", 64, 640, stack_stress),
+            Family::new("large", 160, 3200, large),
             Family::new("lattice1d", 5460, 21844, lattice1d).exhaustive(true, true),
             Family::new("lattice2d", 18729, 260649, lattice2d).exhaustive(true, true),
             Family::new("lattice2d_rep", 7380, 66429, lattice2d_rep).exhaustive(true, true),
